@@ -15,7 +15,7 @@ from ..core import Ctx
 from ..lattice import ORIGIN0 as _O0
 
 # seven origin-0 embeddings plus two magnitudes: 1e-6 and 1e9 units (absolute tolerances and slacks show there)
-ORIGIN0 = _O0 + ["micro", "huge"]
+ORIGIN0 = _O0 + ["micro", "huge", "mega"]
 from .. import tlc
 from .c01 import to_case, decide
 from .die_common import random_description
@@ -35,12 +35,28 @@ def ops_for(rng: random.Random, c, nmax: int) -> list[list[dict]]:
     n = rng.randint(1, nmax // 2)
     seqs.append([{"op": "split", "p": p, "q": q, "n": n, "check_model": int(n <= 6)},
                  {"op": "split", "p": p2, "q": q2, "n": n + rng.randint(1, nmax // 2), "check_model": 0}])
+    # a second request that the COUNT already satisfies and only the aspect-ratio limit does not (a tighter limit, fewer regions)
+    p, q = rng.choice(RATIOS[2:]); p2, q2 = rng.choice(RATIOS[:2])
+    n = rng.randint(2, max(2, nmax // 2))
+    seqs.append([{"op": "split", "p": p, "q": q, "n": n, "check_model": int(n <= 6)},
+                 {"op": "split", "p": p2, "q": q2, "n": rng.randint(1, n), "check_model": 0}])
     if empty:
         for _ in range(3):
             nr, nc = rng.choice([1, 2, 4, 8]), rng.choice([1, 2, 4, 8])
             if nr + nc > 2:
                 seqs.append([{"op": "grid", "nr": nr, "nc": nc},
                              {"op": "split", "p": 3, "q": 2, "n": nr * nc + rng.randint(0, 5), "check_model": 0}])
+        # request histories on one die object: a request that changes nothing (a loose limit, one region), then a grid whose
+        # cells are elongated, then a request whose count the grid already meets: only the limit makes it cut (seeded C11-7:
+        # a summary of the regions remembered from an earlier request must not answer a later one)
+        for _ in range(2):
+            nr, nc = rng.choice([(1, 4), (4, 1), (1, 8), (8, 1), (2, 8), (8, 2)])
+            p2, q2 = rng.choice(RATIOS)
+            seqs.append([{"op": "split", "p": 3, "q": 1, "n": 1, "check_model": 0},
+                         {"op": "grid", "nr": nr, "nc": nc},
+                         {"op": "split", "p": p2, "q": q2, "n": rng.randint(1, nr * nc), "check_model": 0}])
+            seqs.append([{"op": "grid", "nr": nr, "nc": nc},
+                         {"op": "split", "p": p2, "q": q2, "n": rng.randint(1, nr * nc), "check_model": 0}])
     return seqs
 
 
@@ -70,8 +86,14 @@ def near_limit_cases(rng: random.Random) -> list[dict]:
         if nr + nc == 2:
             nc = 2
         ops = [{"op": "grid", "nr": nr, "nc": nc}]
-        if rng.random() < 0.5:
+        u = rng.random()
+        if u < 0.4:
             ops.append({"op": "split", "p": 3, "q": 2, "n": nr * nc + rng.randint(1, 4), "check_model": 0})
+        elif u < 0.8:   # the count is already met: only the limit asks for cuts; half of them after a request that changed nothing
+            p2, q2 = rng.choice(RATIOS)
+            ops.append({"op": "split", "p": p2, "q": q2, "n": rng.randint(1, nr * nc), "check_model": 0})
+            if u < 0.6 and max(a, b) <= 4 * min(a, b):
+                ops.insert(0, {"op": "split", "p": 4, "q": 1, "n": 1, "check_model": 0})
         out.append({"mregs": [], "mdw": 32 * a, "mdh": 32 * b, "embs": list(ORIGIN0), "ops": ops})
     return out
 
